@@ -14,9 +14,20 @@ import (
 type Conn struct {
 	net.Conn
 	remoteCall string
+
+	// The buffered reader used during login. It may hold bytes received
+	// together with the last login line, so all reads must go through it.
+	rd *bufio.Reader
 }
 
 func (conn Conn) RemoteCall() string { return conn.remoteCall }
+
+func (conn Conn) Read(p []byte) (int, error) {
+	if conn.rd == nil {
+		return conn.Conn.Read(p)
+	}
+	return conn.rd.Read(p)
+}
 
 type listener struct{ net.Listener }
 
@@ -54,5 +65,5 @@ func (ln listener) Accept() (net.Conn, error) {
 	fmt.Fprintf(conn, "Password :\r")
 	_, err = reader.ReadString('\r') //TODO
 
-	return &Conn{conn, remoteCall}, err
+	return &Conn{conn, remoteCall, reader}, err
 }
